@@ -290,15 +290,15 @@ Qed.
 
 (** every entry of the genic density on a standard grid is non-negative (positive) *)
 Lemma phi_genic_nonneg m1 ms nu theta0 gamma beta :
-  0 < nu -> 0 < theta0 -> 0 < beta -> gamma <> 0 -> Forall (fun m => 0 < m < 1) (m1 :: ms) ->
-  Forall (fun p => 0 < p) (phi_genic (0 :: m1 :: ms ++ [1]) nu theta0 gamma beta).
+  0 < nu -> 0 < theta0 -> 0 < beta -> gamma <> 0 -> List.Forall (fun m => 0 < m < 1) (m1 :: ms) ->
+  List.Forall (fun p => 0 < p) (phi_genic (0 :: m1 :: ms ++ [1]) nu theta0 gamma beta).
 Proof.
   intros Hn Ht Hb Hg Hm. rewrite phi_genic_std by exact Hg. cbv zeta.
   set (g := gamma * nu * bfac beta).
   assert (Hg0 : g <> 0) by (unfold g; rewrite bfac_R; apply geff_ne0; assumption).
   assert (Hbf : 0 < bfac beta) by (rewrite bfac_R; apply bR_pos; exact Hb).
   assert (Hsc : forall p, 0 < p -> 0 < p * nu * theta0 * bfac beta).
-  { intros p Hp. repeat apply Rmult_lt_0_compat; assumption. }
+  { intros p Hp. apply Rmult_lt_0_compat; [apply Rmult_lt_0_compat; [apply Rmult_lt_0_compat|]|]; assumption. }
   apply Forall_forall. intros y Hy. apply in_map_iff in Hy. destruct Hy as [p [<- Hin]]. apply Hsc.
   inversion Hm as [|? ? Hm1 Hms]; subst.
   destruct Hin as [<-|[<-|Hin]]; try (apply genic_pt_bounds; assumption).
@@ -385,3 +385,167 @@ Proof.
   - apply Rmult_le_compat_l; [lra|]. apply Rinv_le_contravar; lra.
   - apply Rle_ge. apply Rmult_le_pos; [lra|left; apply Rinv_0_lt_compat; lra].
 Qed.
+
+(** ** general dominance: the quadrature oracle returns the integral *)
+Section GeneralH.
+  Variable quad : (R -> R) -> R -> R -> R.
+  Hypothesis quad_is_RInt : forall f a b, quad f a b = RInt f a b.
+
+  Definition QR (g h x : R) : R := 4 * g * h * x + 2 * g * (1 - 2 * h) * (x * x).
+  Definition QR' (g h x : R) : R := 4 * g * (h + (1 - 2 * h) * x).
+  Definition eQ (g h x : R) : R := exp (- QR g h x).
+
+  Lemma eQ_cont g h x : continuous (eQ g h) x.
+  Proof. apply (ex_derive_continuous (eQ g h)). unfold eQ, QR. auto_derive. exact I. Qed.
+  Lemma eQ_ex g h a b : ex_RInt (eQ g h) a b.
+  Proof. apply (ex_RInt_continuous (V := R_CompleteNormedModule)). intros z _. apply eQ_cont. Qed.
+  Lemma eQ_pos g h x : 0 < eQ g h x.
+  Proof. apply exp_pos. Qed.
+  Lemma I0_pos g h : 0 < RInt (eQ g h) 0 1.
+  Proof. apply RInt_gt_0; [lra| |]; intros; [apply eQ_pos|apply eQ_cont]. Qed.
+
+  (** the two integrands of the source in terms of e^{-Q} *)
+  Lemma integrand_adj_R g h qa xi : integrand_adj g h qa xi = exp (- qa) * eQ g h xi.
+  Proof.
+    unfold integrand_adj, eQ, QR, nfour, n2. numR. two. rewrite <- exp_plus. f_equal. ring.
+  Qed.
+  Lemma integrand_in_R g h q xi : integrand_in g h q xi = exp (QR g h q) * eQ g h xi.
+  Proof.
+    unfold integrand_in, eQ, QR, nfour, n2. numR. two. rewrite <- exp_plus. f_equal. ring.
+  Qed.
+  Lemma RInt_scaled c g h a b : RInt (fun xi => c * eQ g h xi) a b = c * RInt (eQ g h) a b.
+  Proof. apply (RInt_scal (eQ g h) a b c). apply eQ_ex. Qed.
+
+  (** both branches of the numerator are e^{Q(x)} int_x^1 e^{-Q} / int_0^1 e^{-Q} (the Qadjust factor cancels) *)
+  Lemma Qf_R g h x : Qf g h x = QR g h x.
+  Proof. unfold Qf, QR, nfour, n2. numR. two. ring. Qed.
+  Lemma qadjust_nonneg g : 0 <= g -> qadjust g = 0.
+  Proof.
+    intros Hg. unfold qadjust, nltb. numR.
+    replace (Rleb 0 g) with true by (symmetry; apply Rleb_true; exact Hg). reflexivity.
+  Qed.
+
+  (** both branches of the numerator are e^{Q(x)} int_x^1 e^{-Q} / int_0^1 e^{-Q} (the Qadjust factor cancels) *)
+  Lemma general_raw_canonical g h x :
+    general_raw quad g h (general_int0 quad g h) x = exp (QR g h x) * RInt (eQ g h) x 1 / RInt (eQ g h) 0 1.
+  Proof.
+    pose proof (I0_pos g h) as HI.
+    unfold general_raw, general_int0. rewrite !quad_is_RInt.
+    unfold nltb. numR. destruct (Rleb 0 g) eqn:E; cbn [negb].
+    - apply Rleb_true in E. rewrite (qadjust_nonneg g E).
+      rewrite (RInt_ext (integrand_adj g h 0) (fun xi => exp (- 0) * eQ g h xi) 0 1)
+        by (intros; apply integrand_adj_R).
+      rewrite RInt_scaled.
+      rewrite (RInt_ext (integrand_in g h x) (fun xi => exp (QR g h x) * eQ g h xi) x 1)
+        by (intros; apply integrand_in_R).
+      rewrite RInt_scaled. rewrite Ropp_0, exp_0. field. lra.
+    - generalize (qadjust g). intros qa. pose proof (exp_pos (- qa)) as Hq.
+      rewrite (RInt_ext (integrand_adj g h qa) (fun xi => exp (- qa) * eQ g h xi) 0 1)
+        by (intros; apply integrand_adj_R).
+      rewrite (RInt_ext (integrand_adj g h qa) (fun xi => exp (- qa) * eQ g h xi) x 1)
+        by (intros; apply integrand_adj_R).
+      rewrite !RInt_scaled. rewrite Qf_R. field. lra.
+  Qed.
+
+  (** G_h(x) = x(1-x) phi(x) for general dominance, and its derivative *)
+  Definition Gh (K g h x : R) : R := K * exp (QR g h x) * RInt (eQ g h) x 1 / RInt (eQ g h) 0 1.
+  Definition Gh1 (K g h x : R) : R := QR' g h x * Gh K g h x - K / RInt (eQ g h) 0 1.
+
+  Lemma Jx_derive g h x : is_derive (fun y => RInt (eQ g h) y 1) x (- eQ g h x).
+  Proof.
+    apply (is_derive_RInt' (eQ g h) (fun y => RInt (eQ g h) y 1) x 1).
+    - apply filter_forall. intros y. apply (RInt_correct (eQ g h)). apply eQ_ex.
+    - apply eQ_cont.
+  Qed.
+  Lemma Gh_derive K g h x : is_derive (Gh K g h) x (Gh1 K g h x).
+  Proof.
+    pose proof (I0_pos g h) as HI.
+    pose proof (Jx_derive g h x) as HJ.
+    assert (HE : is_derive (fun y => K * exp (QR g h y)) x (K * (QR' g h x * exp (QR g h x)))).
+    { unfold QR, QR'. auto_derive; [exact I|]. ring. }
+    pose proof (is_derive_mult (fun y => K * exp (QR g h y)) (fun y => RInt (eQ g h) y 1) x _ _ HE HJ Rmult_comm) as HM.
+    pose proof (is_derive_scal (fun y => K * exp (QR g h y) * RInt (eQ g h) y 1) x (/ RInt (eQ g h) 0 1) _ HM) as HS.
+    apply (is_derive_ext (fun y => / RInt (eQ g h) 0 1 * (K * exp (QR g h y) * RInt (eQ g h) y 1))).
+    - intros t. unfold Gh, Rdiv. match goal with |- ?a = ?b => change (@eq R a b) end. ring.
+    - match type of HS with is_derive _ _ ?l => replace (Gh1 K g h x) with l end; [exact HS|].
+      unfold Gh1, Gh.
+      assert (Hex : eQ g h x = / exp (QR g h x)) by (unfold eQ; rewrite exp_Ropp; reflexivity).
+      rewrite Hex. pose proof (exp_pos (QR g h x)) as Hp.
+      generalize dependent (exp (QR g h x)). intros E Hex Hp.
+      generalize dependent (RInt (eQ g h) 0 1). intros I0 HI _.
+      generalize (RInt (eQ g h) x 1). intros Jx.
+      unfold plus, mult; cbn. intros. field. lra.
+  Qed.
+
+  (** *** stationarity for general dominance.  M(x) = gamma 2 (h + (1-2h) x) x(1-x), V = x(1-x)/(nu b):
+      the flux J = M phi - (V phi)'/2 = gamma 2 (h+(1-2h)x) G - G'/(2 nu b) is the same at every x *)
+  Lemma general_h_is_stationary_lemma nu theta0 gamma h beta x : 0 < nu -> 0 < beta ->
+    let b := bR beta in let g := gamma * nu * b in let K := nu * theta0 * b in
+    (0 < x < 1 -> x * (1 - x) * (general_raw quad g h (general_int0 quad g h) x * (1 / (x * (1 - x))) * nu * theta0 * bfac beta)
+                  = Gh K g h x) /\
+    is_derive (Gh K g h) x (Gh1 K g h x) /\
+    gamma * 2 * (h + (1 - 2 * h) * x) * Gh K g h x - Gh1 K g h x / (2 * nu * b) = theta0 / 2 * / RInt (eQ g h) 0 1 /\
+    Gh K g h 0 = 2 * (nu * b) * (theta0 / 2) /\ Gh K g h 1 = 0.
+  Proof.
+    intros Hn Hb b g K. pose proof (bR_pos beta Hb) as Hbb. fold b in Hbb.
+    pose proof (I0_pos g h) as HI.
+    split; [|split; [|split; [|split]]].
+    - intros Hx. rewrite general_raw_canonical, bfac_R. fold b. unfold Gh, K. field. repeat split; lra.
+    - apply Gh_derive.
+    - unfold Gh1, QR'. generalize (Gh K g h x). intros G. revert HI. generalize (RInt (eQ g h) 0 1). intros I0 HI.
+      unfold K, g. field. repeat split; lra.
+    - unfold Gh, K. replace (QR g h 0) with 0 by (unfold QR; ring). rewrite exp_0. field. lra.
+    - unfold Gh. rewrite RInt_point. unfold zero; cbn. unfold Rdiv. ring.
+  Qed.
+
+  (** *** at h = 1/2 the quadrature form is the genic closed form *)
+  Lemma RInt_eQ_half g a b : g <> 0 -> RInt (eQ g (1 / 2)) a b = (exp (- (2 * g) * a) - exp (- (2 * g) * b)) / (2 * g).
+  Proof.
+    intros Hg.
+    rewrite (RInt_ext (eQ g (1 / 2)) (fun xi => exp (- (2 * g) * xi))).
+    2:{ intros xi _. unfold eQ, QR. f_equal. field. }
+    apply is_RInt_unique.
+    replace ((exp (- (2 * g) * a) - exp (- (2 * g) * b)) / (2 * g))
+      with (minus ((fun xi => - exp (- (2 * g) * xi) / (2 * g)) b) ((fun xi => - exp (- (2 * g) * xi) / (2 * g)) a))
+      by (unfold minus, plus, opp; cbn; field; lra).
+    apply (is_RInt_derive (V := R_CompleteNormedModule) (fun xi => - exp (- (2 * g) * xi) / (2 * g)) (fun xi => exp (- (2 * g) * xi)) a b).
+    - intros y _. auto_derive; [exact I|]. field. lra.
+    - intros y _. apply (ex_derive_continuous (fun xi => exp (- (2 * g) * xi))). auto_derive. exact I.
+  Qed.
+
+  Lemma general_h_at_half_lemma g x : g <> 0 ->
+    general_raw quad g (1 / 2) (general_int0 quad g (1 / 2)) x = ratio (2 * g) (1 - x).
+  Proof.
+    intros Hg. rewrite general_raw_canonical. rewrite !RInt_eQ_half by exact Hg. unfold ratio.
+    assert (HD : 1 - exp (- (2 * g)) <> 0).
+    { apply Rminus_eq_contra. intro He. symmetry in He. revert He. apply exp_ne_1. lra. }
+    replace (QR g (1 / 2) x) with (2 * g * x) by (unfold QR; field).
+    replace (- (2 * g) * 0) with 0 by ring. replace (- (2 * g) * 1) with (- (2 * g)) by ring. rewrite exp_0.
+    assert (H1 : exp (2 * g * x) * exp (- (2 * g) * x) = 1) by (rewrite <- exp_plus; replace (2 * g * x + - (2 * g) * x) with 0 by ring; apply exp_0).
+    assert (H2 : exp (2 * g * x) * exp (- (2 * g)) = exp (- (2 * g) * (1 - x))) by (rewrite <- exp_plus; f_equal; ring).
+    rewrite <- H2.
+    replace (exp (2 * g * x) * ((exp (- (2 * g) * x) - exp (- (2 * g))) / (2 * g)) / ((1 - exp (- (2 * g))) / (2 * g)))
+      with ((exp (2 * g * x) * exp (- (2 * g) * x) - exp (2 * g * x) * exp (- (2 * g))) / (1 - exp (- (2 * g)))) by (field; lra).
+    rewrite H1. reflexivity.
+  Qed.
+
+  (** the interior entries of the two code paths agree at h = 1/2, and so does the x = 1 value (Qadjust = 0) *)
+  Lemma general_h_at_half_is_genic_lemma g x : g <> 0 -> -300 < g ->
+    general_raw quad g (1 / 2) (general_int0 quad g (1 / 2)) x * (1 / (x * (1 - x))) = genic_pt g x /\
+    (qadjust g = 0 -> g < 300 -> 1 / general_int0 quad g (1 / 2) = genic_limit g).
+  Proof.
+    intros Hg HA. split.
+    - rewrite general_h_at_half_lemma by exact Hg. rewrite genic_pt_A by exact HA. rewrite genicA_ratio. ring.
+    - intros Hq HB. unfold general_int0. rewrite quad_is_RInt, Hq.
+      rewrite (RInt_ext (integrand_adj g (1 / 2) 0) (fun xi => exp (- 0) * eQ g (1 / 2) xi) 0 1)
+        by (intros; apply integrand_adj_R).
+      rewrite RInt_scaled, RInt_eQ_half by exact Hg. rewrite genic_limit_A by exact HB.
+      replace (- (2 * g) * 0) with 0 by ring. replace (- (2 * g) * 1) with (- (2 * g)) by ring. rewrite Ropp_0, exp_0.
+      assert (HD : 1 - exp (- (2 * g)) <> 0).
+      { apply Rminus_eq_contra. intro He. symmetry in He. revert He. apply exp_ne_1. lra. }
+      assert (H1 : exp (2 * g) * exp (- (2 * g)) = 1) by (rewrite <- exp_plus; replace (2 * g + - (2 * g)) with 0 by ring; apply exp_0).
+      pose proof (exp_pos (2 * g)) as Hp.
+      replace (exp (2 * g) - 1) with (exp (2 * g) * (1 - exp (- (2 * g)))) by (rewrite Rmult_minus_distr_l, H1; ring).
+      field. repeat split; lra.
+  Qed.
+End GeneralH.
